@@ -112,11 +112,13 @@ def plan(exp, tier):
     u._lemma_transform = lt
     veccore.add_conversions(u, only=('Vec2', 'Vec3', 'Vec4'))
     affcore.add_point_ctors(u)
+    veccore.add_unit_ctors(u)
     rotcore.add_quat_core(u)
     transform_extras(u)
     for ms in MATS:
         matcore.add_mat_struct(u, ms)
         matcore.add_mat_mul(u, ms)
+        matcore.add_mat_index(u, ms)
         affcore.add_affine(u, ms)
         if ms.n == 4:
             rotcore.add_mat_rotations(u, ms, axes_only=(2,))
